@@ -321,6 +321,15 @@ int32_t psPemDecode(psPool_t *pool,
     *outlen = outlenPsSize;
 
 #  if defined(USE_PKCS5) && defined(USE_PBKDF1)
+    /* The CBC decrypt functions process whole blocks only. */
+    if ((encrypted == 1 && (*outlen % DES3_BLOCKLEN) != 0) ||
+        (encrypted == 2 && (*outlen % 16) != 0))
+    {
+        psTraceCrypto("Encrypted PEM body is not a multiple of block size\n");
+        memset_s(passKey, sizeof(passKey), 0x0, sizeof(passKey));
+        psFree(dout, pool);
+        return PS_PARSE_FAIL;
+    }
     if (encrypted == 1 && password)
     {
         psDes3Init(&dctx, cipherIV, passKey);
